@@ -48,10 +48,6 @@ pub enum Ev {
     TableAdd(NodeHandle, Seq<NodeHandle>),
     /// RoutingTable::find_node_mut(handle): at most the one existing live record with that handle is handed out for marking
     TableFind(NodeHandle),
-    /// Timer::schedule_in(duration, task) -> timeout id
-    Sched(int, ScheduledTaskCheck, nat),
-    /// Timer::cancel(timeout id)
-    Cancel(int),
     /// TableLookup::new(info_hash, announce)
     LookupStart(InfoHash, bool),
 }
@@ -99,6 +95,8 @@ impl Node {
     #[verifier::external_body] pub fn local_request(&mut self) ensures final(self).handle == old(self).handle { unimplemented!() }
     #[verifier::external_body] pub fn addr(&self) -> (r: SocketAddr) ensures r == self.handle.addr { unimplemented!() }
     #[verifier::external_body] pub fn handle(&self) -> (r: &NodeHandle) ensures *r == self.handle { unimplemented!() }
+    #[verifier::external_body] pub fn status(&self) -> NodeStatus { unimplemented!() }
+    #[verifier::external_body] pub fn recently_requested_from(&self) -> bool { unimplemented!() }
 }
 #[verifier::external_body]
 pub struct ClosestNodes<'a> { p: core::marker::PhantomData<&'a Node> }
@@ -129,22 +127,47 @@ impl RoutingTable {
         ensures IteratorSpec::obeys_prophetic_iter_laws(&r), IteratorSpec::decrease(&r) is Some { unimplemented!() }
     #[verifier::external_body]
     pub fn node_id(&self) -> (r: NodeId) ensures r == self.node_id { unimplemented!() }
+    #[verifier::external_body]
+    pub fn num_good_nodes(&self) -> usize { unimplemented!() }
+    #[verifier::external_body]
+    pub fn num_questionable_nodes(&self) -> usize { unimplemented!() }
 }
+//@begin type src/node.rs - enum NodeStatus
+#[derive(Structural, Copy, Clone, PartialEq, Eq)]
+pub enum NodeStatus {
+    Bad,
+    Questionable,
+    Good,
+}
+//@end
 
-// ---- timer stand-in (contract of timer.rs:37-68: schedule inserts under a fresh id, cancel removes that id)
+// ---- timer stand-in: `pending` maps the id of every scheduled-and-not-yet-fired/cancelled timeout to (task, delay in ns)
+//      ASSUMED contract of timer.rs:37-68 (schedule inserts under a fresh id, cancel removes exactly that id)
 pub struct Timeout { pub id: u64 }
 impl Clone for Timeout { #[verifier::external_body] fn clone(&self) -> (r: Self) ensures r == *self { unimplemented!() } }
 impl Copy for Timeout {}
-pub struct Timer<T> { pub next_id: u64, pub t: core::marker::PhantomData<T> }
-impl Timer<ScheduledTaskCheck> {
+pub struct Timer<T> { pub next_id: u64, pub pending: Ghost<Map<int, (T, nat)>> }
+impl<T> Timer<T> {
+    /// ids are handed out by a counter (timer.rs:64-68; ASSUMED: fewer than 2^64 timeouts per run, so it never wraps)
+    pub open spec fn wf(&self) -> bool { forall|id: int| #[trigger] self.pending@.contains_key(id) ==> 0 <= id < self.next_id }
     #[verifier::external_body]
-    pub fn schedule_in(&mut self, deadline: Duration, value: ScheduledTaskCheck, Tracked(tr): Tracked<&mut Trace>) -> (r: Timeout)
-        ensures final(tr).ev == old(tr).ev.push(Ev::Sched(r.id as int, value, dur_nanos(deadline)))
+    pub fn schedule_in(&mut self, deadline: Duration, value: T) -> (r: Timeout)
+        requires old(self).wf()
+        ensures final(self).wf(), r.id == old(self).next_id, final(self).next_id == old(self).next_id + 1,
+            final(self).pending@ == old(self).pending@.insert(r.id as int, (value, dur_nanos(deadline)))
     { unimplemented!() }
     #[verifier::external_body]
-    pub fn cancel(&mut self, timeout: Timeout, Tracked(tr): Tracked<&mut Trace>) -> (r: bool)
-        ensures final(tr).ev == old(tr).ev.push(Ev::Cancel(timeout.id as int))
+    pub fn cancel(&mut self, timeout: Timeout) -> (r: bool)
+        requires old(self).wf()
+        ensures final(self).wf(), final(self).next_id == old(self).next_id,
+            r == old(self).pending@.contains_key(timeout.id as int), final(self).pending@ == old(self).pending@.remove(timeout.id as int)
     { unimplemented!() }
+}
+/// what a search may do to the timer: cancel/fire old entries, schedule new ones under fresh ids, never a table-refresh entry
+pub open spec fn no_new_refresh(o: Timer<ScheduledTaskCheck>, f: Timer<ScheduledTaskCheck>) -> bool {
+    f.wf() && f.next_id >= o.next_id
+    && (forall|id: int| #[trigger] f.pending@.contains_key(id) && id < o.next_id ==> o.pending@.contains_key(id) && o.pending@[id] == f.pending@[id])
+    && (forall|id: int| #[trigger] f.pending@.contains_key(id) && id >= o.next_id ==> !(f.pending@[id].0 is TableRefresh))
 }
 
 // ---- lookup stand-in: contracts of the entry points used by the handler (recv_finished is proved in unit `lookup`)
@@ -168,11 +191,13 @@ impl TableLookup {
     // ASSUMED contract (lookup.rs:123-243 is outside Verus' subset): a search only sends queries, yields peers, marks nodes and uses its timeouts
     #[verifier::external_body]
     pub fn recv_response(&mut self, node: Node, trans_id: &TransactionID, msg: Response, socket: &Socket, timer: &mut Timer<ScheduledTaskCheck>, Tracked(tr): Tracked<&mut Trace>) -> (r: ActionStatus)
-        ensures only_requests_and_yields(old(tr).ev, final(tr).ev)
+        requires old(timer).wf()
+        ensures only_requests_and_yields(old(tr).ev, final(tr).ev), no_new_refresh(*old(timer), *final(timer))
     { unimplemented!() }
     #[verifier::external_body]
     pub fn recv_timeout(&mut self, trans_id: &TransactionID, socket: &Socket, timer: &mut Timer<ScheduledTaskCheck>, Tracked(tr): Tracked<&mut Trace>) -> (r: ActionStatus)
-        ensures only_requests_and_yields(old(tr).ev, final(tr).ev)
+        requires old(timer).wf()
+        ensures only_requests_and_yields(old(tr).ev, final(tr).ev), no_new_refresh(*old(timer), *final(timer))
     { unimplemented!() }
     // proved in unit `lookup` (recv_finished sends only announce_peer requests)
     #[verifier::external_body]
@@ -186,9 +211,16 @@ impl TableLookup {
 // TRUSTED: derived Hash/Eq on ActionID (a u64) agree
 pub broadcast axiom fn actionid_key_model() ensures #[trigger] obeys_key_model::<ActionID>();
 
-// ---- refresh object: only what the handler reads (continue_refresh is proved in unit `refresh`)
-pub struct TableRefresh { pub action: ActionID }
-impl TableRefresh {
+// ---- message id generator: stand-in carrying the contract proved in unit `txid` (every id has the generator's 5-byte action prefix)
+pub struct MIDGenerator { pub action_id: u64 }
+impl MIDGenerator {
     #[verifier::external_body]
-    pub fn action_id(&self) -> (r: ActionID) ensures r == self.action { unimplemented!() }
+    pub fn action_id(&self) -> (r: ActionID) ensures r.action_id == self.action_id >> 24 { unimplemented!() }
+    #[verifier::external_body]
+    pub fn generate(&mut self) -> (r: TransactionID) ensures final(self).action_id == old(self).action_id, tid_value(r) >> 24 == old(self).action_id >> 24 { unimplemented!() }
+}
+impl InfoHash {
+    // flip_bit panics for index >= 160 (info_hash.rs:78-87): the precondition is an obligation at every call site
+    #[verifier::external_body]
+    pub fn flip_bit(self, index: usize) -> InfoHash requires index < 160 { unimplemented!() }
 }
